@@ -211,6 +211,23 @@ class PCSO(PUSO):
         """
         PCBO.update(self, *args, **kwargs)
 
+    def __imul__(self, other):
+        """__imul__.
+
+        Define the ``*=`` operator so that the recorded constraints and the
+        ancilla counter survive. See ``qubovert.PCBO.__imul__``.
+
+        Parameters
+        ----------
+        other : dict or number.
+
+        Returns
+        -------
+        self : PCSO object.
+
+        """
+        return PCBO.__imul__(self, other)
+
     @property
     def constraints(self):
         """constraints.
